@@ -541,3 +541,50 @@ Lemma float_kinds_agree :
       [1%N; 2%N] = ReflectGen.floatKinds /\
   float_kind 0 = None /\ float_kind 3 = None.
 Proof. repeat split; vm_compute; reflexivity. Qed.
+
+(* ---------------------------------------------------------------- the round trip when the API lists the export in another order *)
+Lemma export_entries_hyps S :
+  NoDup (map fst S) -> all_importable S -> closed S ->
+  NoDup (map fst (export_entries S)) /\ xall_importable (export_entries S) /\ xclosed (export_entries S).
+Proof.
+  intros Hnd Himp Hcl.
+  assert (Hkeys : map fst (export_entries S) = map fst S).
+  { unfold export_entries. rewrite map_map. apply map_ext. intros [k r]. reflexivity. }
+  split; [rewrite Hkeys; exact Hnd|]. split.
+  - intros k r H. unfold export_entries in H. apply in_map_iff in H as ([k0 r0] & Hf & H0). cbn [fst snd] in Hf.
+    inversion Hf; subst k r. rewrite export_root_importable. apply (Himp k0 r0 H0).
+  - intros k Hk. rewrite export_entries_refs in Hk. rewrite Hkeys. apply Hcl. exact Hk.
+Qed.
+
+Lemma xhyps_perm e1 e2 :
+  Permutation e1 e2 -> NoDup (map fst e1) -> xall_importable e1 -> xclosed e1 ->
+  NoDup (map fst e2) /\ xall_importable e2 /\ xclosed e2.
+Proof.
+  intros Hp Hnd Himp Hcl. split; [|split].
+  - eapply Permutation_NoDup; [apply Permutation_map; exact Hp|exact Hnd].
+  - intros k r H. apply (Himp k r). eapply Permutation_in; [apply Permutation_sym; exact Hp|exact H].
+  - intros k Hk. unfold xentry_refs in Hk. apply in_flat_map in Hk as (kr & Hkr & Hr).
+    assert (In k (map fst e1)).
+    { apply Hcl. unfold xentry_refs. apply in_flat_map. exists kr. split; [|exact Hr].
+      eapply Permutation_in; [apply Permutation_sym; exact Hp|exact Hkr]. }
+    eapply Permutation_in; [apply Permutation_map; exact Hp|assumption].
+Qed.
+
+Theorem export_import_roundtrip_perm (S : list (ref * root)) (E : list (ref * xroot)) :
+  Permutation E (export_entries S) ->
+  NoDup (map fst S) -> all_importable S -> closed S ->
+  exists S', import_api E = ROk S' /\
+    (forall k x, In (k, x) E -> exists r', lookup S' k = Some (Linked r') /\ export_root r' = x) /\
+    (forall k, ~ In k (map fst E) -> lookup S' k = None) /\
+    refs_resolved S' = true.
+Proof.
+  intros Hp Hnd Himp Hcl.
+  destruct (export_entries_hyps S Hnd Himp Hcl) as (X1 & X2 & X3).
+  destruct (xhyps_perm _ _ (Permutation_sym Hp) X1 X2 X3) as (E1 & E2 & E3).
+  destruct (import_api_spec E E1 E2 E3) as (S' & Hi & Hin & Hout & Hres).
+  exists S'. split; [exact Hi|]. split; [|split; [exact Hout|exact Hres]].
+  intros k x Hkx. destruct (Hin k x Hkx) as (r' & Hir & Hl). exists r'. split; [exact Hl|].
+  assert (Hx : In (k, x) (export_entries S)) by (eapply Permutation_in; eauto).
+  unfold export_entries in Hx. apply in_map_iff in Hx as ([k0 r0] & Hf & H0). cbn [fst snd] in Hf. inversion Hf; subst k x.
+  destruct (import_export_root r0 (Himp k0 r0 H0)) as (r'' & Hir' & He). rewrite Hir in Hir'. inversion Hir'; subst r''. exact He.
+Qed.
